@@ -63,6 +63,7 @@ type (
 	EmitPartial struct {
 		Name string
 		Data []KV
+		Var  string // non-empty: the data is the hash held in this variable (partial("name", opts))
 	} // <%= partial("name", {k: v}) %>
 	ContentFor struct {
 		Name string
@@ -71,6 +72,7 @@ type (
 	EmitContentOf struct {
 		Name string
 		Data []KV
+		Var  string // non-empty: the data is the hash held in this variable
 	} // <%= contentOf("name", {k: v}) %>
 	EmitBlock struct {
 		Helper string
@@ -265,7 +267,11 @@ func (in *Interp) nodes(ns []Node, sb *strings.Builder, inLoop, inFn bool) (ctl,
 			if !ok {
 				return ctlNone, nil, errf("unknown partial %s", t.Name)
 			}
-			if err := in.inChild(in.sc, t.Data, body, sb); err != nil {
+			data, err := in.heldData(t.Data, t.Var)
+			if err != nil {
+				return ctlNone, nil, err
+			}
+			if err := in.inChild(in.sc, data, body, sb); err != nil {
 				return ctlNone, nil, err
 			}
 		case ContentFor:
@@ -285,7 +291,11 @@ func (in *Interp) nodes(ns []Node, sb *strings.Builder, inLoop, inFn bool) (ctl,
 				in.unspecified("contentOf used in another scope than its contentFor")
 				return ctlNone, nil, nil
 			}
-			if err := in.inChild(st.def, t.Data, st.body, sb); err != nil {
+			data, err := in.heldData(t.Data, t.Var)
+			if err != nil {
+				return ctlNone, nil, err
+			}
+			if err := in.inChild(st.def, data, st.body, sb); err != nil {
 				return ctlNone, nil, err
 			}
 		case EmitBlock:
@@ -311,6 +321,33 @@ func constBody(ns []Node) bool {
 
 // inChild renders body in a fresh child of parent extended with data (whose
 // values are evaluated in the current scope); what it binds is gone afterwards.
+// heldData: the data of a partial / contentOf call that names a variable holding a hash: its entries as they are at
+// the call (the construct gets its own bindings; the hash itself is not touched by what the construct lets).
+func (in *Interp) heldData(data []KV, name string) ([]KV, error) {
+	if name == "" {
+		return data, nil
+	}
+	v, ok := in.sc.lookup(name)
+	if !ok {
+		return nil, &unknownIdent{name}
+	}
+	om, ok := v.(*OrderedMap)
+	if !ok {
+		in.unspecified("data of a partial that is not a hash")
+		return nil, nil
+	}
+	var out []KV
+	for _, k := range om.Keys {
+		ks, ok := k.(string)
+		if !ok {
+			in.unspecified("data hash with a key that is not a string")
+			return nil, nil
+		}
+		out = append(out, KV{K: ks, V: Lit{V: om.Vals[k]}})
+	}
+	return out, nil
+}
+
 func (in *Interp) inChild(parent *scope, data []KV, body []Node, sb *strings.Builder) error {
 	child := &scope{vars: map[string]interface{}{}, outer: parent}
 	for _, kv := range data {
